@@ -40,29 +40,37 @@ type propConf struct {
 	timeoutThor  time.Duration
 	raceAlarms   bool // property quantifies over schedules: race report = violation
 	memGiB       int  // ulimit -v for children, 0 = none
+	race         bool // build the monitor with the race detector
 }
 
+// The race detector is on for every property whose statement quantifies over
+// schedules or whose workload is concurrent (C01, C04, C05, C08, C12, C13) and
+// for the pure value/format properties where it is cheap.  The lake-model
+// properties (C14–C17, C19) and C09/C16 run single-client histories whose
+// verdict does not depend on interleavings; under the race detector every ZNG
+// reader's 512 KiB buffers cost ~7× (measured), so these monitors are built
+// without -race (checkptr stays on) and explore ~7× more histories instead.
 var props = map[string]propConf{
-	"C01": {"exploration", 16, 16, 4, 10 * time.Minute, 60 * time.Minute, true, 0},
-	"C02": {"exploration", 16, 16, 2, 10 * time.Minute, 60 * time.Minute, false, 0},
-	"C03": {"exploration", 16, 16, 2, 10 * time.Minute, 60 * time.Minute, false, 0},
-	"C04": {"exploration", 16, 16, 4, 10 * time.Minute, 60 * time.Minute, true, 0},
-	"C05": {"exploration", 8, 8, 8, 10 * time.Minute, 60 * time.Minute, true, 0},
-	"C06": {"exploration", 16, 16, 2, 10 * time.Minute, 60 * time.Minute, false, 0},
-	"C07": {"exploration", 16, 16, 2, 10 * time.Minute, 60 * time.Minute, false, 0},
-	"C08": {"exploration", 8, 8, 0, 10 * time.Minute, 60 * time.Minute, true, 0},
-	"C09": {"exploration", 16, 16, 2, 10 * time.Minute, 60 * time.Minute, false, 0},
-	"C10": {"exploration", 16, 16, 2, 10 * time.Minute, 60 * time.Minute, false, 0},
-	"C11": {"exploration", 16, 16, 2, 15 * time.Minute, 90 * time.Minute, false, 6},
-	"C12": {"exploration", 8, 8, 4, 10 * time.Minute, 60 * time.Minute, true, 0},
-	"C13": {"exploration", 8, 8, 4, 10 * time.Minute, 60 * time.Minute, true, 0},
-	"C14": {"exploration", 16, 16, 2, 10 * time.Minute, 60 * time.Minute, false, 0},
-	"C15": {"exploration", 16, 16, 2, 10 * time.Minute, 60 * time.Minute, false, 0},
-	"C16": {"exploration", 16, 16, 2, 10 * time.Minute, 60 * time.Minute, false, 0},
-	"C17": {"fault_enumeration", 16, 16, 2, 10 * time.Minute, 60 * time.Minute, false, 0},
-	"C18": {"fault_enumeration", 16, 16, 2, 10 * time.Minute, 60 * time.Minute, false, 0},
-	"C19": {"exploration", 8, 8, 4, 10 * time.Minute, 60 * time.Minute, false, 0},
-	"C20": {"exploration", 16, 16, 2, 10 * time.Minute, 60 * time.Minute, false, 0},
+	"C01": {"exploration", 16, 16, 4, 10 * time.Minute, 60 * time.Minute, true, 0, true},
+	"C02": {"exploration", 16, 16, 2, 10 * time.Minute, 60 * time.Minute, false, 0, true},
+	"C03": {"exploration", 16, 16, 2, 10 * time.Minute, 60 * time.Minute, false, 0, true},
+	"C04": {"exploration", 16, 16, 4, 10 * time.Minute, 60 * time.Minute, true, 0, true},
+	"C05": {"exploration", 8, 8, 8, 10 * time.Minute, 60 * time.Minute, true, 0, true},
+	"C06": {"exploration", 16, 16, 2, 10 * time.Minute, 60 * time.Minute, false, 0, true},
+	"C07": {"exploration", 16, 16, 2, 10 * time.Minute, 60 * time.Minute, false, 0, true},
+	"C08": {"exploration", 8, 8, 0, 10 * time.Minute, 60 * time.Minute, true, 0, true},
+	"C09": {"exploration", 16, 16, 2, 10 * time.Minute, 60 * time.Minute, false, 0, false},
+	"C10": {"exploration", 16, 16, 2, 10 * time.Minute, 60 * time.Minute, false, 0, true},
+	"C11": {"exploration", 16, 16, 2, 15 * time.Minute, 90 * time.Minute, false, 6, true},
+	"C12": {"exploration", 8, 8, 4, 10 * time.Minute, 60 * time.Minute, true, 0, true},
+	"C13": {"exploration", 8, 8, 4, 10 * time.Minute, 60 * time.Minute, true, 0, true},
+	"C14": {"exploration", 16, 16, 2, 10 * time.Minute, 60 * time.Minute, false, 0, false},
+	"C15": {"exploration", 16, 16, 2, 10 * time.Minute, 60 * time.Minute, false, 0, false},
+	"C16": {"exploration", 16, 16, 2, 10 * time.Minute, 60 * time.Minute, false, 0, false},
+	"C17": {"fault_enumeration", 16, 16, 2, 10 * time.Minute, 60 * time.Minute, false, 0, false},
+	"C18": {"fault_enumeration", 16, 16, 2, 10 * time.Minute, 60 * time.Minute, false, 0, true},
+	"C19": {"exploration", 8, 8, 4, 10 * time.Minute, 60 * time.Minute, false, 0, false},
+	"C20": {"exploration", 16, 16, 2, 10 * time.Minute, 60 * time.Minute, false, 0, true},
 }
 
 type finding struct {
@@ -70,6 +78,8 @@ type finding struct {
 	ID        string `json:"id"`
 	Status    string `json:"status"` // open | fixed
 	Signature string `json:"signature,omitempty"`
+	// Signatures lists further symptoms of the same root cause.
+	Signatures []string `json:"signatures,omitempty"`
 	What      string `json:"what"`
 	Commit    string `json:"commit,omitempty"`
 	Line      string `json:"line,omitempty"`
@@ -121,7 +131,7 @@ func main() {
 	if *overlay != "" {
 		monBin += "-ov"
 	}
-	if err := buildMonitor(monBin, *overlay); err != nil {
+	if err := buildMonitor(monBin, *overlay, conf.race); err != nil {
 		fmt.Printf("BUILD-FAILED property=%s\n%s\n", id, err)
 		os.Exit(2)
 	}
@@ -236,7 +246,12 @@ func main() {
 	open := map[string]finding{}
 	for _, f := range ff.Findings {
 		if f.Property == id && f.Status == "open" {
-			open[f.Signature] = f
+			if f.Signature != "" {
+				open[f.Signature] = f
+			}
+			for _, sg := range f.Signatures {
+				open[sg] = f
+			}
 		}
 	}
 	knownSeen := map[string]int{}
@@ -257,9 +272,20 @@ func main() {
 		knownSigs = append(knownSigs, s)
 	}
 	sort.Strings(knownSigs)
+	printed := map[string]bool{}
 	for _, s := range knownSigs {
 		f := open[s]
-		fmt.Printf("KNOWN-FINDING: property=%s %s [%s; seen %d×]\n", id, f.What, f.ID, knownSeen[s])
+		if printed[f.ID] {
+			continue
+		}
+		printed[f.ID] = true
+		n := 0
+		for s2, c := range knownSeen {
+			if open[s2].ID == f.ID {
+				n += c
+			}
+		}
+		fmt.Printf("KNOWN-FINDING: property=%s %s [%s; seen %d×]\n", id, f.What, f.ID, n)
 	}
 
 	replayDir := filepath.Join(cache, "replays")
@@ -314,14 +340,19 @@ func goEnv() []string {
 	return env
 }
 
-func buildMonitor(out, overlay string) error {
+func buildMonitor(out, overlay string, race bool) error {
 	// Serialize builds of the same output between concurrent check runs.
 	lock, err := os.OpenFile(out+".lock", os.O_CREATE|os.O_RDWR, 0o644)
 	if err == nil {
 		syscall.Flock(int(lock.Fd()), syscall.LOCK_EX)
 		defer func() { syscall.Flock(int(lock.Fd()), syscall.LOCK_UN); lock.Close() }()
 	}
-	args := []string{"build", "-race", "-tags", "verif", "-o", out}
+	args := []string{"build", "-tags", "verif", "-o", out}
+	if race {
+		args = append(args, "-race")
+	} else {
+		args = append(args, "-gcflags=all=-d=checkptr")
+	}
 	if overlay != "" {
 		abs, _ := filepath.Abs(overlay)
 		args = append(args, "-overlay", abs)
